@@ -300,7 +300,8 @@ def op5(ctx):
 def op6(ctx):
     b = ctx.facts.one(r"^memory::Memory::<R, PR, H>::map_mut_in$")
     ev, res = ctx.eval(b, no_inline=(r"\{closure",))
-    sl = [e for e in res.log if e["kind"] == "call" and e["callee"].endswith("File::set_len")]
+    # (Options::open sizes a file it has just created; that is creation, not an open of an existing file)
+    sl = [e for e in res.log if e["kind"] == "call" and e["callee"].endswith("File::set_len") and not (e["body"].path.endswith("Options>::open") or any(p_.endswith("Options>::open") for p_, _ in e["chain"]))]
     if not sl:
         yield Ob(key_of("C09-Op6", b.path, "set_len"), False, "no set_len call found (anchor)", b.loc())
     for e in sl:
